@@ -1356,6 +1356,32 @@ def oracle_priorities(evs, meta=None):
 
 
 # ------------------------------------------------------------------ C19 at agent level: a check on a black-holed pair is sent exactly N times on schedule
+def gen_latepeer(rng, i):
+    """C11: one agent gives up on its checks early (one or two transmissions) while the path is dead; the path opens before the idle time-out declares
+    its component FAILED, and the peer's retransmitted checks then arrive on FAILED pairs of a component that is still CONNECTING."""
+    ncomp = rng.choice([1, 1, 2])
+    ips = (("10.0.0.1",), tuple("10.0.1.%d" % (k + 1) for k in range(rng.choice([1, 2]))))
+    opts = tuple(rng.choice([0, OPT_REGULAR]) for _ in (0, 1))
+    ops = two_agents(rng, 0, opts, rng.choice([(1, 0), (0, 1)]), ips, ncomp)
+    quick = rng.randrange(2)
+    ops.append("prop,%d,stun-max-retransmissions,%d" % (quick, rng.choice([1, 2, 2])))
+    for x in ips[0]:
+        for y in ips[1]:
+            ops += ["hole,%s,%s,on" % (x, y), "hole,%s,%s,on" % (y, x)]
+    ops.append("net,0,0,1,%d,3" % rng.choice([1, 10, 30]))
+    ops += ["gather,0,1", "gather,1,1", "run,20"] + signalling(rng, ncomp, order=1)
+    ops.append("run,%d" % rng.choice([600, 1100, 1600, 2200, 3000, 4500]))
+    both = rng.random() < 0.6
+    for x in ips[0]:
+        for y in ips[1]:
+            a, b = (x, y) if quick == 1 else (y, x)        # a -> b: from the patient agent to the one that gave up
+            ops.append("hole,%s,%s,off" % (a, b))
+            if both:
+                ops.append("hole,%s,%s,off" % (b, a))
+    ops += ["run,%d" % rng.choice([300, 2000]), "run,15000"] + final_queries(ncomp)
+    return "late%d %s" % (i, " ".join(ops)), {"kind": "latepeer", "ncomp": ncomp}
+
+
 def gen_blackhole(rng, i):
     """two agents (reliable = pseudo-TCP over UDP candidates, or not), configured N transmissions, every path between them black-holed in
     both directions: each connectivity check must be transmitted exactly N times, RTO, 2 RTO, 4 RTO ... apart, where RTO = max(500 ms, Ta * pairs
